@@ -345,8 +345,15 @@ fn one_victim(ctx: &WorkerCtx, rep: &mut WorkerReport, case_seed: u64, kind: &st
         let stride = (total / 160).max(1);
         points.extend((0..total).step_by(stride as usize));
     } else {
-        let stride = (total / 5).max(1);
-        points.extend((0..total).step_by(stride as usize));
+        // random points, each with its successor: the two writes of one key (history row, latest row)
+        // are adjacent, and a crash exactly between them is the interesting one
+        for _ in 0..5 {
+            let k = rng.below(total.max(1) as u64) as i64;
+            points.push(k);
+            if k + 1 < total {
+                points.push(k + 1);
+            }
+        }
     }
     // table boundaries: first write to each table, and the last write
     let mut seen = std::collections::BTreeSet::new();
